@@ -476,6 +476,79 @@ def r11_split_or_guard(text):
         count += 1
 
 
+def r24_guard_comparison(text, mut_self=False):
+    """R24: a match-arm guard that is ONE ordering comparison `A op B` (op one of < <= > >=, no top-level && / ||) is written in its
+    method form `(A).lt(&(B))` / le / gt / ge - by the language definition the same call (`PartialOrd::gt(&A, &B)`). The installed Verus
+    does not assume an OPERATOR guard on a non-primitive type inside the guarded arm (measured), the method form is handled exactly."""
+    names = {'<': 'lt', '<=': 'le', '>': 'gt', '>=': 'ge'}
+    count = 0
+    pos = 0
+    while True:
+        toks = lex(text)
+        hit = None
+        for k, t in enumerate(toks):
+            if k < pos or t.kind != 'ident' or t.text != 'if':
+                continue
+            # a guard: `if` .. `=>` at depth 0 with no `{` at depth 0 in between, and the `if` is not preceded by `else` / `=` / `(` ...
+            pv = _prev_code(toks, k)
+            if pv >= 0 and toks[pv].text in ('else', '=', '(', '{', ';', 'return', ','):
+                if toks[pv].text != ',' :
+                    continue
+            j, depth, end = k + 1, 0, None
+            while j < len(toks) - 1:
+                x = toks[j]
+                if x.kind == 'punct':
+                    if x.text in '([': depth += 1
+                    elif x.text in ')]': depth -= 1
+                    elif x.text == '{' and depth == 0: break
+                    elif x.text == '}' and depth == 0: break
+                    elif x.text == ';' and depth == 0: break
+                    elif x.text == '=' and toks[j + 1].text == '>' and depth == 0 and (j == 0 or toks[j - 1].text not in ('<', '>', '=', '!')):
+                        end = j; break
+                j += 1
+            if end is None:
+                continue
+            if mut_self and any(t.kind == 'ident' and t.text == 'self' for t in toks[k + 1:end]):
+                # measured: with a `&mut self` receiver the installed Verus does not resolve the borrow a guard takes from `self`, so the
+                # function's `final(self)` is no longer tied to the state after the match - a proof failure there says nothing about the code
+                raise Undecided('unsupported construct: match guard that reads through `self` in a `&mut self` function (%s)' % ''.join(t.text for t in toks[k:end]).strip()[:80])
+            # top-level operators inside toks[k+1:end]
+            ops, depth, bad, j = [], 0, False, k + 1
+            while j < end:
+                x = toks[j]
+                if x.kind == 'punct':
+                    if x.text in '([': depth += 1
+                    elif x.text in ')]': depth -= 1
+                    elif depth == 0:
+                        nxt = toks[j + 1].text if j + 1 < end else ''
+                        prv = toks[j - 1].text if j - 1 > k else ''
+                        if x.text in ('&', '|') and nxt == x.text: bad = True
+                        if x.text == ':' and nxt == ':' and j + 2 < end and toks[j + 2].text == '<': bad = True      # turbofish
+                        if x.text in ('<', '>'):
+                            if prv in ('-', '=', '<', '>') or nxt in ('<', '>'):
+                                bad = bad or (nxt in ('<', '>') or prv in ('<', '>'))      # shifts: leave the guard alone
+                            else:
+                                ops.append((j, x.text + ('=' if nxt == '=' else '')))
+                j += 1
+            if bad or len(ops) != 1:
+                continue
+            hit = (k, end, ops[0])
+            break
+        if not hit:
+            return text, count
+        k, end, (oj, op) = hit
+        lhs = ''.join(t.text for t in toks[k + 1:oj]).strip()
+        rhs = ''.join(t.text for t in toks[oj + len(op):end]).strip()
+        if not lhs or not rhs:
+            pos = k + 1
+            continue
+        pre = ''.join(t.text for t in toks[:k + 1])
+        post = ''.join(t.text for t in toks[end:])
+        text = '%s (%s).%s(&(%s)) %s' % (pre, lhs, names[op], rhs, post)
+        count += 1
+        pos = k + 1
+
+
 def r10_break_value(text, types):
     """R10: `let x = loop { .. break v; .. };` becomes `let x: T; loop { .. { x = v; break; } .. }` (Verus rejects break-with-value).
     `types` maps the bound name to its type (from the contract file; a wrong type is a rustc error, i.e. exit 2)."""
